@@ -37,7 +37,10 @@ func TestC13(t *testing.T) {
 	// edits that only touch the template's own metadata (a pod label): the PodTemplate must follow them too
 	s2l := scOpt{name: "S2-edits-of-template-metadata", nodes: []string{"n1"}, eds: []w.EDSOpt{w.WithRolling("1", "", 0, 0)}, tpls: []string{"A", "A+label:rev=2"},
 		alpha: &w.Alpha{PT: true, Templates: []string{"A", "A+label:rev=2"}}, budget: 2}
-	scs := []scOpt{s2, s3, s2f, s2h, s2l}
+	// the user (or a chart upgrade) adds a label to the ExtendedDaemonSet object itself in the middle of a rollout
+	s2o := corpusS2([]string{"n1"}, "1", 2, &w.Alpha{Templates: []string{"A", "B"}, SpecEdits: []string{"set-label:chart=v2"}})
+	s2o.name = "S2-edits-and-a-label-on-the-object"
+	scs := []scOpt{s2, s3, s2f, s2h, s2l, s2o}
 	runWorld(t, run, scs, []func(*w.MonCtx){w.MonC13}, 0)
 	requireAntecedents(run, "C13/create", "C13/delete", "C13/podtemplate")
 	c13Lattice(t, run)
